@@ -240,7 +240,12 @@ def real_cl(c):
                 state = dict(o=0)
                 vec = np.concatenate([e[m:], e[:m]])
 
+                base_depth = len(nrandom._sseq)
+
                 def fake(dtype, shape, mean=0.0, std=1.0, _s=state, _v=vec):
+                    if len(nrandom._sseq) <= base_depth:
+                        # not inside a per-sample random.Context: draws of the preconditioner probing (napprox > 0)
+                        return orig(dtype, shape, mean, std)
                     k_ = int(np.prod(shape)) if np.ndim(shape) or shape else 1
                     out = _v[_s["o"]:_s["o"] + k_].reshape(shape)
                     _s["o"] += k_
